@@ -541,8 +541,12 @@ func (fi *funcInfo) lenOf(v ssa.Value) Lin {
 		if x.Op == token.MUL {
 			if al, isAl := x.X.(*ssa.Alloc); isAl {
 				// a local cell assigned exactly once (a variable captured by a closure): its value
-				if s := singleStore(al); s != nil {
-					return fi.lenOf(s)
+				if s := singleStore(al); s != nil && !fi.busy[x] {
+					// (the stored value may itself be computed from the cell: `x = append(x, …)` in a loop)
+					fi.busy[x] = true
+					l := fi.lenOf(s)
+					delete(fi.busy, x)
+					return l
 				}
 			}
 			if base, f, ok := slotOf(x.X); ok && fi.fields[f] {
